@@ -717,6 +717,18 @@ impl Machine {
                     self.suppress.set(true);
                 }
                 let v = catch_unwind(AssertUnwindSafe(|| r.var.value()));
+                if self.run == Run::Honest && poison_used {
+                    // the variable was allocated from a field value that is not an encoding: value() may
+                    // refuse (error or on-curve assertion), but must never hand out a native Element that
+                    // is not a valid group element
+                    if let Ok(Ok(got)) = &v {
+                        ctx.sub_eval();
+                        let ok = crate::api::Coords::of::<Ark>(got).affine().map(|p| crate::refmodel::CURVE.valid(&p)).unwrap_or(false);
+                        if !ok {
+                            ctx.report("C13|ReadValue|invalid-element-handed-out", "value() of a variable allocated from an invalid encoding returned Ok(element) whose coordinates are not a valid group element".to_string())?;
+                        }
+                    }
+                }
                 if self.run == Run::Honest && !poison_used {
                     match v {
                         Ok(Ok(got)) => {
